@@ -165,7 +165,9 @@ def lexer_table_syn(ctx):
 
 LEXNEXT = "<lexer::Tokenizer<'a> as core::iter::traits::iterator::Iterator>::next"
 TOK = "lexer::Tokenizer::<'a>::"
-STD_CHAR_PRED = {'is_alphabetic': str.isalpha, 'is_alphanumeric': str.isalnum, 'is_ascii_digit': lambda c: c in '0123456789',
+STD_CHAR_PRED = {'is_ascii': lambda c: ord(c) < 128, 'is_ascii_uppercase': lambda c: 'A' <= c <= 'Z', 'is_ascii_lowercase': lambda c: 'a' <= c <= 'z',
+                 'is_ascii_hexdigit': lambda c: c in '0123456789abcdefABCDEF', 'is_control': lambda c: ord(c) < 32 or 127 <= ord(c) < 160,
+                 'is_alphabetic': str.isalpha, 'is_alphanumeric': str.isalnum, 'is_ascii_digit': lambda c: c in '0123456789',
                  'is_numeric': str.isnumeric, 'is_ascii_alphabetic': lambda c: c.isascii() and c.isalpha(),
                  'is_ascii_alphanumeric': lambda c: c.isascii() and c.isalnum(), 'is_whitespace': str.isspace,
                  'is_ascii_whitespace': lambda c: c in ' \t\n\x0c\r', 'is_ascii_punctuation': lambda c: c.isascii() and not c.isalnum() and not c.isspace() and c.isprintable()}
